@@ -94,7 +94,7 @@ class Desc:
         if not cur:
             return UNKNOWN
         head = cur[0]
-        if self.op == 'discr':
+        if self.op in ('discr', 'discrmap'):
             val = VARIANT_INDEX.get(head)
             if head in ('true', 'false', 'ok', 'notok'):
                 return UNKNOWN
@@ -198,8 +198,8 @@ class GuardFlow:
         m = re.match(r'^discriminant\((.*)\)$', rhs)
         if m:
             d = self._place_desc(m.group(1), descs)
-            if d is not None and d.op == 'val' and not d.neg:
-                return Desc(d.steps, 'discr')
+            if d is not None and d.op in ('val', 'valmap') and not d.neg:
+                return Desc(d.steps, 'discr' if d.op == 'val' else 'discrmap')
             if d is not None and d.op == 'try':
                 return Desc(d.steps, 'trydiscr')
             return None
@@ -244,8 +244,14 @@ class GuardFlow:
         """Flow-insensitive descriptors for locals derived from the dest of the call in gblock.
         Returns (descs: local -> Desc for locals ALL of whose defs are derived with one
         descriptor, mixed: local -> Desc for locals with derived + other defs)."""
-        t = self.body.blocks[gblock].term
-        dest = t.dest.strip() if t.dest else None
+        if isinstance(gblock, tuple):
+            gb, gi = gblock
+            st = self.body.blocks[gb].stmts[gi]
+            dest = st.lhs.strip()
+        else:
+            gb, gi = gblock, 'term'
+            t = self.body.blocks[gblock].term
+            dest = t.dest.strip() if t.dest else None
         if dest is None or not is_plain_local(dest):
             return {}, {}
         root = int(dest[1:])
@@ -281,7 +287,7 @@ class GuardFlow:
                 continue
             if loc == root:
                 alld = defs.get(loc, [])
-                others = [x for x in alld if not (x[0] == gblock and x[1] == 'term')]
+                others = [x for x in alld if not (x[0] == gb and x[1] == gi)]
                 if others:
                     mixed[loc] = d
                 else:
@@ -330,6 +336,10 @@ class GuardFlow:
             return None
         if key.endswith('as Try>::branch') and d0.op == 'val' and not d0.neg:
             return Desc(d0.steps, 'try')
+        if d0.op == 'valmap' and not d0.neg:
+            for nm, v in (('Result::is_ok', 'Ok'), ('Result::is_err', 'Err'), ('Option::is_some', 'Some'), ('Option::is_none', 'None')):
+                if key.endswith(nm):
+                    return Desc(d0.steps, 'is:' + v)
         if d0.op == 'val' and not d0.neg:
             if re.search(r'Result(::<.*>)?::is_ok$', t.callee) or key.endswith('Result::is_ok'):
                 return Desc(d0.steps, 'is:Ok')
@@ -344,6 +354,10 @@ class GuardFlow:
             for p in PASS_THROUGH:
                 if key.endswith(p):
                     return Desc(d0.steps, 'val')
+            if key.endswith('Option::map') or key.endswith('Result::map'):
+                # the outer variant is preserved (and_then: Some may become None -> handled as
+                # opaque: only None-ness of the input implies None-ness of the output)
+                return Desc(d0.steps, 'valmap')
         return None
 
     # ---- the analysis -----------------------------------------------------------------
@@ -353,6 +367,11 @@ class GuardFlow:
         universe, accepted = universe_for(accept)
         pure, mixed = self.derive(gblock)
         mixed_locals = sorted(mixed)
+        stmt_guard = isinstance(gblock, tuple)
+        gb = gblock[0] if stmt_guard else gblock
+        root_local = None
+        if stmt_guard:
+            root_local = base_local(self.body.blocks[gb].stmts[gblock[1]].lhs)
         body, cfg = self.body, self.cfg
         entry_world = (NOTRUN, tuple(UNKNOWN for _ in mixed_locals))
         state = {cfg.entry: {entry_world}}
@@ -463,19 +482,29 @@ class GuardFlow:
             blk = body.blocks[bid]
             t = blk.term
             succ_worlds = {}
+            after = []
             for w in worlds:
                 w2 = transfer_block(bid, w)
-                atom, binds = w2
+                if stmt_guard and bid == gb:
+                    for a in universe:
+                        b2 = list(w2[1])
+                        for k, ml in enumerate(mixed_locals):
+                            if ml == root_local:
+                                b2[k] = mixed[ml].eval(a)
+                        after.append((a, tuple(b2)))
+                else:
+                    after.append(w2)
+            for (atom, binds) in after:
                 if t.kind == 'call':
                     # dest of a call into a mixed local -> unknown
                     if mixed_locals and t.dest:
                         bl = base_local(t.dest)
-                        if bl in mixed and not (bid == gblock):
+                        if bl in mixed and not (bid == gb and not stmt_guard):
                             b2 = list(binds)
                             nd = self._call_desc(t, pure)
                             b2[mixed_locals.index(bl)] = nd.eval(atom) if nd is not None else UNKNOWN
                             binds = tuple(b2)
-                    if bid == gblock:
+                    if bid == gb and not stmt_guard:
                         for s in t.targets:
                             for a in universe:
                                 b2 = list(binds)
